@@ -133,7 +133,7 @@ class TopocentricOrientation(Orientation):
         self._m = rot3(-lon) @ rot2(lat - np.pi / 2.0) @ rot3(np.pi)
 
         mtd = f"{name}_to_{parent.name}"
-        setattr(self, mtd, self._to_parent)
+        setattr(Orientation, mtd, self._to_parent)
 
         self.parent + self
 
